@@ -163,6 +163,11 @@ func Reach(label string)           {}
 func ReachIf(c bool, label string) {}
 func Symbolic() bool               { return false }
 func MapOrderAll(on bool)          {}
+
+// MapRotate(k): under the symbolic executor every map range starts k slots into the map's insertion order and
+// wraps around (what Go does for a small map, from a random slot); 0 = insertion order. Natively the order is
+// Go's own (replays of a counterexample that depends on it are attempted several times).
+func MapRotate(k int) {}
 func RaceDetect(on bool)           {}
 func RaceWatch(on bool)            {}
 func HBRelease(obj any)            {}
@@ -209,6 +214,8 @@ type gthread struct {
 	resume    chan struct{}
 	done      bool
 	blocked   func() bool
+	hasTimer  bool
+	timerAt   int64
 	inQuiesce bool
 }
 
@@ -256,16 +263,25 @@ func nextSched(n int) int {
 
 func reschedule(me *gthread, canContinue bool) {
 	var cands []*gthread
-	for _, t := range threads {
-		if t == me {
-			if canContinue && !t.inQuiesce {
+	advanced := false // the clock was moved to a pending timer: the caller itself may be the one that is due
+	collect := func() {
+		cands = cands[:0]
+		for _, t := range threads {
+			if t == me {
+				if (canContinue || (advanced && enabled(t))) && !t.inQuiesce {
+					cands = append(cands, t)
+				}
+				continue
+			}
+			if !t.inQuiesce && enabled(t) {
 				cands = append(cands, t)
 			}
-			continue
 		}
-		if !t.inQuiesce && enabled(t) {
-			cands = append(cands, t)
-		}
+	}
+	collect()
+	if len(cands) == 0 && advanceToTimer() {
+		advanced = true
+		collect()
 	}
 	if len(cands) == 0 {
 		for _, t := range threads {
@@ -331,6 +347,31 @@ func Await(cond func() bool) {
 		reschedule(me, false)
 		me.blocked = nil
 	}
+}
+
+// AwaitTimer blocks until the harness clock has reached deadline or cond holds. When every thread is blocked
+// and timers are pending, the scheduler moves the clock to the earliest deadline (time passes only through
+// Sleep/ClockAdvance or when nothing else can happen).
+func AwaitTimer(deadline int64, cond func() bool) {
+	me := cur
+	me.hasTimer, me.timerAt = true, deadline
+	Await(func() bool { return clock >= deadline || cond() })
+	me.hasTimer = false
+}
+
+func advanceToTimer() bool {
+	found := false
+	var min int64
+	for _, t := range threads {
+		if !t.done && t.hasTimer && t.blocked != nil && (!found || t.timerAt < min) {
+			found, min = true, t.timerAt
+		}
+	}
+	if !found || min <= clock {
+		return false
+	}
+	clock = min
+	return true
 }
 
 func Quiesce() {
